@@ -19,7 +19,7 @@ import itertools
 import z3
 
 from pyvc import core
-from pyvc.core import And, Or, Not, Implies, lift_bool, Undecided, SInt, SOid, SXVal, OID, XVal, Int, Bool, zbool
+from pyvc.core import And, Or, Not, Implies, lift_bool, Undecided, SInt, SOid, SXVal, OID, XVal, Int, Bool, zbool, zint
 from pyvc.objects import Obj, NT, PyExc, PDict, PSet, ASet, GenResult, BoundMethod
 from pyvc.interp import LoopClause
 from .common import ApiUnit, SendSeam, oname, get_cls, bare_client, varbind, exc_is, get_func, pdu_varbinds
@@ -140,8 +140,9 @@ class WalkUnit(ApiUnit):
         elif pdu.cls.name == "BulkGetRequest":
             m = pdu.fields["max_repeaters"]
             nr = pdu.fields["non_repeaters"]
-            ctx.check(oname(self.prop, self.target, "call:_send", "bulk-request-has-no-non-repeaters-and-the-requested-size"),
-                      And(interp.eq(nr, 0), interp.eq(m, self.bulk or -1)))
+            # (any repetition count >= 1 gives the same walk; that the datagram carries the CALLER's value is C05's)
+            ctx.check(oname(self.prop, self.target, "call:_send", "bulk-request-has-no-non-repeaters-and-at-least-one-repetition"),
+                      And(interp.eq(nr, 0), isinstance(m, int) and m >= 1 if isinstance(m, int) else lift_bool(zint(m) >= 1)))
             if not isinstance(m, int):
                 raise Undecided("symbolic max-repetitions")
         else:
